@@ -1,15 +1,21 @@
 package c19
 
 import (
+	"context"
 	"encoding/base64"
 	"fmt"
+	"net"
 	"net/http"
 	"net/http/httptest"
 	"net/url"
 	"reflect"
 	"strconv"
 	"strings"
+	"sync"
 	"unsafe"
+
+	"github.com/jackc/pgx/v5/pgxpool"
+	"verifh/vrt"
 
 	"github.com/indexsupply/shovel/shovel/config"
 	"github.com/indexsupply/shovel/shovel/web"
@@ -154,8 +160,17 @@ type env struct {
 	pw   string
 	ran  map[string]int // route path → times the protected stub ran for the current request
 
+	// real: the mux mirrors EVERY dashboard registration of main.go with the real
+	// handler methods (behind a run recorder) instead of stubs; see newRealEnv.
+	real bool
+	// ranReq: request id (header X-C19-Req) → times a protected handler ran for it;
+	// used where several requests are in flight at once (conc.go).
+	ranReq map[string]int
+
 	minted map[string]*http.Cookie // "R" login from remotePublic, "L" login from remoteLoopback
 }
+
+const reqIDHeader = "X-C19-Req"
 
 // passwordOf reads the unexported Handler.password.
 //
@@ -174,9 +189,73 @@ func passwordOf(h *web.Handler) (string, error) {
 	return string(b), nil
 }
 
-func newEnv(k cfg, rt *routeTable) (*env, error) {
+func newEnv(k cfg, rt *routeTable) (*env, error) { return newEnvOpt(k, rt, false) }
+
+// newRealEnv builds a handler whose mux mirrors main.go with the REAL handler
+// methods: every `mux.Handle*(path, …wh.Method…)` statement becomes
+// path → [Authn(] recorder → h.Method [)]. The handler gets a pgx pool whose
+// dial function always fails ("the database is down"): every handler runs its
+// own code up to the first query and answers with its own error path, no nil
+// pointers involved. mgr stays nil (only reached after a successful insert).
+// Requests must carry an already cancelled context (cancelledContext) so that
+// the event-stream handler returns.
+func newRealEnv(k cfg, rt *routeTable) (*env, error) { return newEnvOpt(k, rt, true) }
+
+var (
+	downPoolOnce sync.Once
+	downPool     *pgxpool.Pool
+	downPoolErr  error
+)
+
+// failingPool is shared by all handlers of the process: it never holds a
+// connection, so it carries no state from one case to the next.
+func failingPool() (*pgxpool.Pool, error) {
+	downPoolOnce.Do(func() {
+		pc, err := pgxpool.ParseConfig("postgres://c19@127.0.0.1:1/none?sslmode=disable")
+		if err != nil {
+			downPoolErr = err
+			return
+		}
+		pc.ConnConfig.DialFunc = func(context.Context, string, string) (net.Conn, error) {
+			return nil, fmt.Errorf("c19: there is no database in this harness")
+		}
+		pc.ConnConfig.LookupFunc = func(_ context.Context, host string) ([]string, error) { return []string{host}, nil }
+		downPool, downPoolErr = pgxpool.NewWithConfig(context.Background(), pc)
+	})
+	return downPool, downPoolErr
+}
+
+// cancelledContext is a request context that is already cancelled. Inside a
+// vrt world the channel model only knows closes made through vrt, so the close
+// is announced there as well (the instrumented event-stream handler selects on
+// Done() through the model).
+type cancelledCtx struct {
+	context.Context
+	done chan struct{}
+}
+
+func (c cancelledCtx) Done() <-chan struct{} { return c.done }
+func (c cancelledCtx) Err() error            { return context.Canceled }
+
+func cancelledContext() context.Context {
+	d := make(chan struct{})
+	if vrt.W() != nil {
+		vrt.Close(d)
+	}
+	close(d)
+	return cancelledCtx{context.Background(), d}
+}
+
+func newEnvOpt(k cfg, rt *routeTable, real bool) (*env, error) {
+	var pool *pgxpool.Pool
+	if real {
+		var err error
+		if pool, err = failingPool(); err != nil {
+			return nil, fmt.Errorf("building the always-down pgx pool: %v", err)
+		}
+	}
 	for try := 0; try < 1000; try++ {
-		e := &env{k: k, conf: &config.Root{}, ran: map[string]int{}, minted: map[string]*http.Cookie{}}
+		e := &env{k: k, conf: &config.Root{}, ran: map[string]int{}, ranReq: map[string]int{}, minted: map[string]*http.Cookie{}, real: real}
 		e.conf.Dashboard.DisableAuthn = k.Disable
 		e.conf.Dashboard.EnableLoopbackAuthn = k.LoopAuth
 		switch k.PW {
@@ -187,8 +266,8 @@ func newEnv(k cfg, rt *routeTable) (*env, error) {
 		default:
 			return nil, fmt.Errorf("unknown password mode %q", k.PW)
 		}
-		// mgr and pgp are nil: the protected inner handlers are recording stubs
-		e.h = web.New(nil, e.conf, nil)
+		// stub mode: mgr and pgp are nil, the protected inner handlers are recording stubs
+		e.h = web.New(nil, e.conf, pool)
 		if k.PW == "generated" {
 			pw, err := passwordOf(e.h)
 			if err != nil {
@@ -206,19 +285,58 @@ func newEnv(k cfg, rt *routeTable) (*env, error) {
 			e.pw = pw
 		}
 		e.mux = http.NewServeMux()
-		e.mux.HandleFunc("/login", e.h.Login)
-		for _, r := range rt.Enum {
-			path := r.Path
-			stub := func(w http.ResponseWriter, _ *http.Request) {
+		stubFor := func(path string) http.HandlerFunc {
+			return func(w http.ResponseWriter, r *http.Request) {
 				e.ran[path]++
+				e.ranReq[r.Header.Get(reqIDHeader)]++
 				w.WriteHeader(200)
 				w.Write([]byte("ran"))
 			}
-			if r.Wrapped {
-				e.mux.Handle(path, e.h.Authn(stub)) // the real wrapper around a stub
-			} else {
-				e.mux.HandleFunc(path, stub) // registered as in main.go: without the wrapper
+		}
+		if !real {
+			e.mux.HandleFunc("/login", e.h.Login)
+			for _, r := range rt.Enum {
+				if r.Wrapped {
+					e.mux.Handle(r.Path, e.h.Authn(stubFor(r.Path))) // the real wrapper around a stub
+				} else {
+					e.mux.HandleFunc(r.Path, stubFor(r.Path)) // registered as in main.go: without the wrapper
+				}
 			}
+			return e, nil
+		}
+		seen := map[string]bool{}
+		for _, r := range rt.Regs {
+			if r.Method == "" || seen[r.Path] {
+				continue // pprof and closures are not dashboard handler methods
+			}
+			seen[r.Path] = true
+			mv := reflect.ValueOf(e.h).MethodByName(r.Method)
+			if !mv.IsValid() {
+				return nil, fmt.Errorf("%s:%d registers handler method %q which *web.Handler does not have", rt.File, r.Line, r.Method)
+			}
+			fn, ok := mv.Interface().(func(http.ResponseWriter, *http.Request))
+			if !ok {
+				return nil, fmt.Errorf("%s:%d: web.Handler.%s is not an http handler function", rt.File, r.Line, r.Method)
+			}
+			path := r.Path
+			inner := func(w http.ResponseWriter, rq *http.Request) {
+				e.ran[path]++
+				fn(w, rq)
+			}
+			if r.Wrapped {
+				e.mux.Handle(path, e.h.Authn(inner))
+			} else {
+				e.mux.HandleFunc(path, inner)
+			}
+		}
+		for _, r := range rt.Enum {
+			if !seen[r.Path] { // a required page main.go does not register (reported by the routes part)
+				seen[r.Path] = true
+				e.mux.Handle(r.Path, e.h.Authn(stubFor(r.Path)))
+			}
+		}
+		if !seen["/login"] {
+			e.mux.HandleFunc("/login", e.h.Login)
 		}
 		return e, nil
 	}
@@ -254,6 +372,9 @@ func (e *env) serve(r *http.Request) (rec *httptest.ResponseRecorder, panicked a
 	rec = httptest.NewRecorder()
 	for k := range e.ran {
 		delete(e.ran, k)
+	}
+	if e.real {
+		r = r.WithContext(cancelledContext())
 	}
 	defer func() { panicked = recover() }()
 	e.mux.ServeHTTP(rec, r)
